@@ -646,7 +646,7 @@ class StructType(DataType):
         if isinstance(obj, dict):
             return tuple(obj.get(n) for n in self.names)
         if isinstance(obj, Row):
-            return obj
+            return self._match_fields_by_name(obj)
         if isinstance(obj, (list, tuple)):
             return tuple(obj)
         if hasattr(obj, "__dict__"):
@@ -654,12 +654,24 @@ class StructType(DataType):
             return tuple(d.get(n) for n in self.names)
         raise ValueError(f"Unexpected tuple {obj} with StructType")
 
+    def _match_fields_by_name(self, row):
+        """A Row holding the fields of this struct in another order (e.g. a
+        Row built from keyword arguments, which sorts them): match its
+        values to the fields by name, as the type verifier does."""
+        fields = getattr(row, "__fields__", None)
+        if (fields is not None and list(fields) != list(self.names)
+                and len(set(fields)) == len(fields)
+                and sorted(fields) == sorted(self.names)):
+            return create_row(self.names, [row[n] for n in self.names])
+        return row
+
     def to_serialized_internal(self, obj):
         # Only calling toInternal function for fields that need conversion
         if isinstance(obj, dict):
             return tuple(f.toInternal(obj.get(n)) if c else obj.get(n)
                          for n, f, c in zip(self.names, self.fields, self._needConversion))
         if isinstance(obj, Row):
+            obj = self._match_fields_by_name(obj)
             return create_row(
                 obj.__fields__,
                 (f.toInternal(val) for f, val, c in zip(self.fields, obj, self._needConversion))
